@@ -41,6 +41,16 @@ def build(name):
             return inner(*args, **kwargs)
         w.__signature__ = inspect.signature(inner)
         return {'objs': {'w': w, 'inner': inner}, 'calls': {'sig': lambda: sigtools.signature(w), 'inspect': lambda: inspect.signature(w)}}
+    if name == 'signature_attr_upgraded':
+        # the stored signature is one of sigtools' own, built by hand (no sources); nothing in the wrapper for discovery to find
+        from sigtools import signatures
+
+        def w(d, e):
+            return d, e
+        w.__signature__ = signatures.signature(inner).replace(sources={})
+        p = functools.partial(w)
+        return {'objs': {'w': w, 'inner': inner}, 'calls': {'sig': lambda: sigtools.signature(w), 'inspect': lambda: inspect.signature(w),
+                                                             'noauto': lambda: sigtools.signature(w, auto=False), 'partial': lambda: sigtools.signature(p)}}
     if name == 'forger':
         @specifiers.forwards_to_function(inner)
         def w(a, *args, **kwargs):
@@ -83,7 +93,17 @@ def build(name):
             def m(self, a, b=1, *args, **kwargs):
                 return inner(*args, **kwargs)
         k = K()
-        return {'objs': {'w': K.__dict__['m']}, 'calls': {'sig': lambda: sigtools.signature(k.m), 'inspect': lambda: inspect.signature(k.m), 'bind': lambda: sigtools.signature(K().m)}}
+
+        def hold_drop():
+            # holds a bound wrapper (a live cache entry of the descriptor) during a retrieval, then lets go of it and collects
+            import gc
+            b = k.m
+            r = sigtools.signature(b)
+            del b
+            gc.collect()
+            return r
+        return {'objs': {'w': K.__dict__['m']}, 'calls': {'sig': lambda: sigtools.signature(k.m), 'inspect': lambda: inspect.signature(k.m), 'bind': lambda: sigtools.signature(K().m),
+                                                           'hold_drop': hold_drop}}
     if name == 'forger_function':
         from sigtools import support
 
@@ -125,7 +145,7 @@ def build(name):
     raise ValueError(name)
 
 
-SCENARIOS = ['wraps', 'wraps_chain', 'signature_attr', 'forger', 'forger_emulate', 'modifiers', 'as_forged', 'decorator', 'method_kwo',
+SCENARIOS = ['wraps', 'wraps_chain', 'signature_attr', 'signature_attr_upgraded', 'forger', 'forger_emulate', 'modifiers', 'as_forged', 'decorator', 'method_kwo',
              'forger_function', 'partial_wraps', 'super_class', 'wrapper_decorator']
 WATCHED = ('__wrapped__', '__signature__', '_sigtools__forger', '_sigtools__wrappers')
 
@@ -142,8 +162,20 @@ def snapshot(sc):
         row = {}
         for k, v in d.items():
             row[k] = ids.setdefault(id(v), len(ids) + 1)
+            if isinstance(v, inspect.Signature):
+                row[k + '(content)'] = ids.setdefault(deep(v), len(ids) + 1)
         out[label] = row
     return out, ids
+
+
+def deep(sig):
+    """the CONTENT of a stored signature object, as text: an object reachable through __signature__ must not be written to either"""
+    def names(fs):
+        return [getattr(f, '__qualname__', repr(f)) for f in fs]
+    src = getattr(sig, 'sources', None)
+    srcs = None if src is None else sorted((str(k), names(v) if isinstance(v, (list, tuple)) else sorted((getattr(f, '__qualname__', repr(f)), n) for f, n in v.items())) for k, v in src.items())
+    pars = [(p.name, str(p.kind), names(getattr(p, 'sources', ())), sorted(str(x) for x in getattr(p, 'source_depths', {}).values())) for p in sig.parameters.values()]
+    return 'content:' + str(sig) + repr(srcs) + repr(pars)
 
 
 def snap_compare(before, after_objs):
@@ -155,10 +187,14 @@ def snap_compare(before, after_objs):
             d = vars(o)
         except TypeError:
             d = {}
-        out_b[label] = sorted(b[label])
+        out_b[label] = sorted(k for k in b[label] if not k.endswith('(content)'))
         out_a[label] = sorted(d)
         for k in b[label]:
-            if k in d and ids.get(id(d[k])) != b[label][k]:
+            if k.endswith('(content)'):
+                v = d.get(k[:-9])
+                if isinstance(v, inspect.Signature) and ids.get(deep(v)) != b[label][k]:
+                    changed.append('%s.%s' % (label, k))
+            elif k in d and ids.get(id(d[k])) != b[label][k]:
                 changed.append('%s.%s' % (label, k))
     return out_b, out_a, changed
 
@@ -436,7 +472,7 @@ def crash_gen(seed, frac):
         rnd = random.Random(seed)
         k = 0
         for scen in SCENARIOS:
-            for call in ('sig', 'inspect', 'bind'):
+            for call in ('sig', 'inspect', 'bind', 'noauto', 'partial', 'hold_drop'):
                 if call not in build(scen)['calls']:
                     continue
                 n = count_crossings(scen, call)
@@ -468,7 +504,11 @@ SCHED_CASES = [('wraps', ['sig', 'sig']), ('wraps', ['sig', 'inspect']), ('wraps
                ('wrapper_decorator', ['inspect', 'inspect']), ('forger_function', ['sig', 'inspect'])]
 
 
-def sched_gen(seed, n1, n2):
+# cases where the second preemption is SWEPT over every step of the other thread while the first thread is parked part-way (holding what it holds)
+SWEEP_CASES = [('method_kwo', ['hold_drop', 'sig']), ('method_kwo', ['hold_drop', 'inspect']), ('signature_attr_upgraded', ['noauto', 'partial'])]
+
+
+def sched_gen(seed, n1, n2, sweep_all=False):
     """n1: number of one-preemption schedules per case, n2: of two-preemption ones (None = all one-preemption ones)"""
     import random
 
@@ -492,6 +532,17 @@ def sched_gen(seed, n1, n2):
                 if k % nshards == shard:
                     yield sched_run('sched/%s-%s-%d' % (scen, '+'.join(calls), k), scen, calls, s)
                 k += 1
+        for scen, calls in SWEEP_CASES + (SCHED_CASES if sweep_all else []):
+            steps = [count_steps(scen, c) for c in calls]
+            for a in range(len(calls)):
+                for b in range(len(calls)):
+                    if a == b or not steps[a] or not steps[b]:
+                        continue
+                    for park in sorted({steps[a] // 4, steps[a] // 2, (3 * steps[a]) // 4}):
+                        for n in range(steps[b] + 1):
+                            if k % nshards == shard:
+                                yield sched_run('sweep/%s-%s-%d' % (scen, '+'.join(calls), k), scen, calls, [(a, park), (b, n), (a, None), (b, None)])
+                            k += 1
     return gen
 
 
